@@ -323,6 +323,9 @@ type c39Params struct {
 
 const c39T0 = int64(1_700_002_800) // multiple of 3600 (hence of 360 and 600)
 
+// noPeer: a spelling the gRPC validators cannot match with a peer address (zoned IPv6); asked from the engine directly
+func noPeer(h refHost) refHost { h.IP = false; return h }
+
 func c39Alphabet() c39Params {
 	var p c39Params
 	sec := func(n int, seed byte) []byte {
@@ -357,12 +360,12 @@ func c39Alphabet() c39Params {
 	if mc.Thorough() {
 		p.worlds = append(p.worlds, []c39ASConf{
 			{"65535-ffff:ffff:ffff", sec(64, 0x01), 360 * time.Second}, {"1-0:0:1", sec(16, 0x30), 360 * time.Second},
-			{iaC, sec(16, 0x30), 420 * time.Second}, {"1-ff00:0:112", sec(33, 0x99), 3600 * time.Second}})
+			{iaC, sec(33, 0x30), 420 * time.Second}})
 		p.protos = append(p.protos, 3, 0x0300, 0x8000, 0x0101)
 		v6c := [16]byte{0x0a, 0, 0, 1} // a00:1:: -- starts with the bytes of 10.0.0.1
 		p.hosts = append(p.hosts,
 			v4("255.255.255.255", 255, 255, 255, 255), v6("::", [16]byte{}), v6("a00:1::", v6c), svc("Wildcard_A", 0x0010),
-			v6("fe80::1%eth0", [16]byte{0xfe, 0x80, 15: 1}), v6("fe80::1", [16]byte{0xfe, 0x80, 15: 1}))
+			noPeer(v6("fe80::1%eth0", [16]byte{0xfe, 0x80, 15: 1})), v6("fe80::1", [16]byte{0xfe, 0x80, 15: 1}))
 		offs = append(offs, 419*time.Second, 420*time.Second, 3599*time.Second, 3600*time.Second, 7199*time.Second)
 	}
 	for _, o := range offs {
@@ -403,24 +406,26 @@ func hier(proto uint16) string {
 	return "generic"
 }
 
-// descriptor of the key a request denotes (alias spellings of a host and the two serving sides coincide)
-func c39Desc(wi int, q c39Req, hosts []refHost, b, e time.Time) string {
+// descriptor of the key a request denotes: alias spellings of a host and the two serving sides coincide; the issuer
+// is identified by its master secret (a key does not depend on the issuer's ISD-AS), the subject AS by its ISD-AS.
+func c39Desc(w *c39World, q c39Req, hosts []refHost, b, e time.Time) string {
 	l0 := q.proto
 	if !refPredefined(l0) {
 		l0 = 0
 	}
-	ep := fmt.Sprintf("w%d|e%d-%d|X%d", wi, b.Unix(), e.Unix(), q.x)
+	ep := fmt.Sprintf("e%d-%d|issuer-secret=%x", b.Unix(), e.Unix(), w.nodes[q.x].secret)
+	y := w.nodes[q.y].ia
 	switch q.kind {
 	case kSV:
 		return fmt.Sprintf("sv|%s|p%d", ep, l0)
 	case kLvl1Inter, kLvl1Intra:
-		return fmt.Sprintf("lvl1|%s|Y%d|p%d", ep, q.y, l0)
+		return fmt.Sprintf("lvl1|%s|dst=%s|p%d", ep, y, l0)
 	case kASHost:
-		return fmt.Sprintf("as-host|%s|Y%d|p%d|B=%s", ep, q.y, q.proto, hosts[q.hb].ID)
+		return fmt.Sprintf("as-host|%s|dst=%s|p%d|B=%s", ep, y, q.proto, hosts[q.hb].ID)
 	case kHostAS:
-		return fmt.Sprintf("host-as|%s|Y%d|p%d|A=%s", ep, q.y, q.proto, hosts[q.ha].ID)
+		return fmt.Sprintf("host-as|%s|dst=%s|p%d|A=%s", ep, y, q.proto, hosts[q.ha].ID)
 	default:
-		return fmt.Sprintf("host-host|%s|Y%d|p%d|A=%s|B=%s", ep, q.y, q.proto, hosts[q.ha].ID, hosts[q.hb].ID)
+		return fmt.Sprintf("host-host|%s|dst=%s|p%d|A=%s|B=%s", ep, y, q.proto, hosts[q.ha].ID, hosts[q.hb].ID)
 	}
 }
 
@@ -481,7 +486,7 @@ func (c *c39Checker) check(wi int, w *c39World, q c39Req, hosts []refHost, pass 
 	} else {
 		r.Outcome("served==documented:" + c39KindName[q.kind] + ":" + hier(q.proto))
 	}
-	des := c39Desc(wi, q, hosts, got.begin, got.end)
+	des := c39Desc(w, q, hosts, got.begin, got.end)
 	c.mu.Lock()
 	if prev, ok := c.byKey[got.key]; ok && prev != des {
 		c.mu.Unlock()
@@ -531,20 +536,21 @@ func hostStr(q c39Req, hosts []refHost) string {
 }
 
 // requests of one world in canonical order
-func c39Requests(w *c39World, p c39Params) []c39Req {
-	var out []c39Req
+func c39Requests(w *c39World, p c39Params) []c39Packed {
+	var out []c39Packed
 	nn := len(w.nodes)
-	for _, t := range p.times {
+	for ti, t := range p.times {
+		_ = t
 		for x := 0; x < nn; x++ {
 			for _, l0 := range []uint16{0, 1} {
-				out = append(out, c39Req{kind: kSV, at: x, proto: l0, t: t, x: x, y: x, ha: -1, hb: -1})
+				out = append(out, pack(c39Req{kind: kSV, at: x, proto: l0, t: t, x: x, y: x, ha: -1, hb: -1}, ti))
 			}
 			for y := 0; y < nn; y++ {
 				for _, l0 := range []uint16{0, 1} {
-					out = append(out, c39Req{kind: kLvl1Inter, at: x, proto: l0, t: t, x: x, y: y, ha: -1, hb: -1})
-					out = append(out, c39Req{kind: kLvl1Intra, at: x, proto: l0, t: t, x: x, y: y, ha: -1, hb: -1})
+					out = append(out, pack(c39Req{kind: kLvl1Inter, at: x, proto: l0, t: t, x: x, y: y, ha: -1, hb: -1}, ti))
+					out = append(out, pack(c39Req{kind: kLvl1Intra, at: x, proto: l0, t: t, x: x, y: y, ha: -1, hb: -1}, ti))
 					if x != y {
-						out = append(out, c39Req{kind: kLvl1Intra, at: y, proto: l0, t: t, x: x, y: y, ha: -1, hb: -1})
+						out = append(out, pack(c39Req{kind: kLvl1Intra, at: y, proto: l0, t: t, x: x, y: y, ha: -1, hb: -1}, ti))
 					}
 				}
 				for _, pr := range p.protos {
@@ -556,20 +562,20 @@ func c39Requests(w *c39World, p c39Params) []c39Req {
 							return -1
 						}
 						// AS-host K_{X,Y:h}: handed to h by the CS of Y; derived on the issuer side by X's engine
-						out = append(out, c39Req{kind: kASHost, at: y, peer: peerOf(h), proto: pr, t: t, x: x, y: y, ha: -1, hb: h})
+						out = append(out, pack(c39Req{kind: kASHost, at: y, peer: peerOf(h), proto: pr, t: t, x: x, y: y, ha: -1, hb: h}, ti))
 						if x != y {
-							out = append(out, c39Req{kind: kASHost, at: x, peer: -1, proto: pr, t: t, x: x, y: y, ha: -1, hb: h})
+							out = append(out, pack(c39Req{kind: kASHost, at: x, peer: -1, proto: pr, t: t, x: x, y: y, ha: -1, hb: h}, ti))
 						}
 						// host-AS K_{X:h,Y}: handed to h by the CS of X; subject side derivation by Y's engine
-						out = append(out, c39Req{kind: kHostAS, at: x, peer: peerOf(h), proto: pr, t: t, x: x, y: y, ha: h, hb: -1})
+						out = append(out, pack(c39Req{kind: kHostAS, at: x, peer: peerOf(h), proto: pr, t: t, x: x, y: y, ha: h, hb: -1}, ti))
 						if x != y {
-							out = append(out, c39Req{kind: kHostAS, at: y, peer: -1, proto: pr, t: t, x: x, y: y, ha: h, hb: -1})
+							out = append(out, pack(c39Req{kind: kHostAS, at: y, peer: -1, proto: pr, t: t, x: x, y: y, ha: h, hb: -1}, ti))
 						}
 						for h2 := range p.hosts {
 							// host-host K_{X:h,Y:h2}: handed to h by the CS of X and to h2 by the CS of Y
-							out = append(out, c39Req{kind: kHostHost, at: x, peer: peerOf(h), proto: pr, t: t, x: x, y: y, ha: h, hb: h2})
+							out = append(out, pack(c39Req{kind: kHostHost, at: x, peer: peerOf(h), proto: pr, t: t, x: x, y: y, ha: h, hb: h2}, ti))
 							if x != y || peerOf(h2) >= 0 {
-								out = append(out, c39Req{kind: kHostHost, at: y, peer: peerOf(h2), proto: pr, t: t, x: x, y: y, ha: h, hb: h2})
+								out = append(out, pack(c39Req{kind: kHostHost, at: y, peer: peerOf(h2), proto: pr, t: t, x: x, y: y, ha: h, hb: h2}, ti))
 							}
 						}
 					}
@@ -578,6 +584,22 @@ func c39Requests(w *c39World, p c39Params) []c39Req {
 		}
 	}
 	return out
+}
+
+// c39Packed is the stored form of a request (validity instant by index) -- millions are kept per world.
+type c39Packed struct {
+	kind, at, peer, x, y, ha, hb int8
+	proto                        uint16
+	ti                           int16
+}
+
+func pack(q c39Req, ti int) c39Packed {
+	return c39Packed{int8(q.kind), int8(q.at), int8(q.peer), int8(q.x), int8(q.y), int8(q.ha), int8(q.hb), q.proto, int16(ti)}
+}
+
+func (c c39Packed) unpack(times []time.Time) c39Req {
+	return c39Req{kind: int(c.kind), at: int(c.at), peer: int(c.peer), x: int(c.x), y: int(c.y), ha: int(c.ha), hb: int(c.hb),
+		proto: c.proto, t: times[c.ti]}
 }
 
 // hostSide re-derives every level 1/2/3 key the way an end host / router does: with the real specific.Deriver /
@@ -589,7 +611,7 @@ func (c *c39Checker) hostSide(wi int, w *c39World, p c39Params) {
 	look := func(q c39Req, b, e time.Time) (refKey, bool) {
 		c.mu.Lock()
 		defer c.mu.Unlock()
-		k, ok := c.byDes[c39Desc(wi, q, p.hosts, b, e)]
+		k, ok := c.byDes[c39Desc(w, q, p.hosts, b, e)]
 		return k, ok
 	}
 	type l2 interface {
@@ -693,9 +715,9 @@ func TestC39(t *testing.T) {
 		reqs := c39Requests(w, p)
 		run := func(rev bool, pass string) {
 			for i := range reqs {
-				q := reqs[i]
+				q := reqs[i].unpack(p.times)
 				if rev {
-					q = reqs[len(reqs)-1-i]
+					q = reqs[len(reqs)-1-i].unpack(p.times)
 				}
 				if i%512 == 0 && r.OutOfBudget() {
 					capped.Store(true)
@@ -717,7 +739,7 @@ func TestC39(t *testing.T) {
 			fetches.Add(n.fetches.Load())
 		}
 		if j == 0 {
-			q := reqs[len(reqs)/2]
+			q := reqs[len(reqs)/2].unpack(p.times)
 			r.Sample(map[string]any{"world": jb.wi, "requests_per_pass": len(reqs), "example_request": map[string]any{
 				"key_type": c39KindName[q.kind], "served_by": w.nodes[q.at].ia.String(), "protocol": q.proto,
 				"val_time": q.t.UTC().Format(time.RFC3339Nano), "src_ia": w.nodes[q.x].ia.String(),
